@@ -92,6 +92,17 @@ def inconsistencies(ds):
             arr[1] = str(int(dep[0]) - 1)
             e[1] = e[1][:ma.start()] + 'nodeArrivalTimesSeconds = [' + ", ".join(arr) + ']' + e[1][ma.end():]
         out.append(("trip_arrival_before_departure", (c, n, l)))
+    # the first stop's arrival after its departure: NOT an order violation the loader tests (that arrival is never used)
+    c, n, l = clone(); e = first_line_with_trip(l)
+    if e:
+        md = re.search(r'nodeDepartureTimesSeconds = \[([^\]]*)\]', e[1])
+        ma = re.search(r'nodeArrivalTimesSeconds = \[([^\]]*)\]', e[1])
+        dep = [x.strip() for x in md.group(1).split(",") if x.strip()] if md else []
+        arr = [x.strip() for x in ma.group(1).split(",") if x.strip()] if ma else []
+        if arr and dep:
+            arr[0] = str(int(dep[0]) + 7)
+            e[1] = e[1][:ma.start()] + 'nodeArrivalTimesSeconds = [' + ", ".join(arr) + ']' + e[1][ma.end():]
+        out.append(("trip_first_arrival_after_departure", (c, n, l)))
     c, n, l = clone(); e = first_line_with_trip(l)
     if e:
         e[1] = sub_first(e[1], r'nodeDepartureTimesSeconds = \[[^,\]]*', 'nodeDepartureTimesSeconds = [ -1'); out.append(("trip_negative_departure", (c, n, l)))
